@@ -17,6 +17,7 @@ import (
 	"sort"
 	"strconv"
 	"strings"
+	"time"
 
 	"mlverif/core"
 	"mlverif/gea"
@@ -88,6 +89,7 @@ func run(prop, tier, repo, verif, dump, explain string, seed int, ov map[string]
 			panic(r)
 		}
 	}()
+	t0 := time.Now()
 	p, err := core.Load(core.LoadOpts{Dir: repo, Overlay: ov})
 	if err != nil {
 		fmt.Fprintln(os.Stderr, "CHECKER-ERROR:", err)
@@ -110,6 +112,7 @@ func run(prop, tier, repo, verif, dump, explain string, seed int, ov map[string]
 		return 2
 	}
 	c := rules.NewCtx(p, prop, tier)
+	c.Start = t0 // wall time includes loading and type-checking the tree
 	f(c)
 	if explain != "" {
 		for _, o := range c.Obs {
